@@ -474,6 +474,8 @@ pub struct Trace {
   pub events: Vec<RecEv>,
   /// after each step: Subscription::is_subscribed() of every root subscribed so far (None = not yet)
   pub root_live: Vec<Vec<Option<bool>>>,
+  /// after each step (real run): Subscription::is_subscribed() of every inner observable's subscription made so far
+  pub inner_live: Vec<Vec<(u32, bool)>>,
   /// after each step: per source, per instance: does the observer still read subscribed?
   pub src_alive: Vec<Vec<Vec<bool>>>,
   /// reference only: instance was cancelled lazily (amb loser) and has not attempted since
@@ -581,6 +583,7 @@ pub fn run_real(case: &Case, opts: &RunOpts) -> Trace {
     .max()
     .unwrap_or(0);
   let root_live = Arc::new(Mutex::new(Vec::<Vec<Option<bool>>>::new()));
+  let inner_live = Arc::new(Mutex::new(Vec::<Vec<(u32, bool)>>::new()));
   let src_alive = Arc::new(Mutex::new(Vec::<Vec<Vec<bool>>>::new()));
   let held = Arc::new(Mutex::new(Vec::<Vec<usize>>::new()));
   set_monitor_mode(true);
@@ -755,6 +758,7 @@ pub fn run_real(case: &Case, opts: &RunOpts) -> Trace {
         *rec.built.lock().unwrap() = None;
       }
       root_live.lock().unwrap().push(subs.iter().map(|s| s.as_ref().map(|s| s.is_subscribed())).collect());
+      inner_live.lock().unwrap().push(rec.inner_subs.lock().unwrap().iter().map(|(r, s)| (*r, s.is_subscribed())).collect());
       src_alive.lock().unwrap().push(srcs.iter().map(|s| s.alive()).collect());
       held.lock().unwrap().push(srcs.iter().zip(case.srcs.iter()).map(|(s, k)| s.held(k)).collect());
     }
@@ -793,6 +797,7 @@ pub fn run_real(case: &Case, opts: &RunOpts) -> Trace {
   }
   tr.events = rec.log.lock().unwrap().clone();
   tr.root_live = root_live.lock().unwrap().clone();
+  tr.inner_live = inner_live.lock().unwrap().clone();
   tr.src_alive = src_alive.lock().unwrap().clone();
   tr.self_unsub_marks = rec.unsub_marks.lock().unwrap().clone();
   tr.sub_snaps = registry.snaps.lock().unwrap().iter().map(|(a, b, c)| (*a, *b, c.clone(), vec![])).collect();
